@@ -39,7 +39,7 @@ Magic()
 /// extracts PROXY protocol v1 header from the given buffer
 static Parsed Parse(const SBuf &buf);
 
-static void ExtractIp(Parser::Tokenizer &tok, Ip::Address &addr);
+static bool ExtractIp(Parser::Tokenizer &tok, Ip::Address &addr);
 static void ExtractPort(Parser::Tokenizer &tok, Ip::Address &addr, const bool trailingSpace);
 static void ParseAddresses(Parser::Tokenizer &tok, Header::Pointer &header);
 }
@@ -60,7 +60,8 @@ static void ParseTLVs(Parser::BinaryTokenizer &tok, Header::Pointer &header);
 }
 }
 
-void
+/// \returns whether the extracted address uses IPv6 (colon-separated) notation
+bool
 ProxyProtocol::One::ExtractIp(Parser::Tokenizer &tok, Ip::Address &addr)
 {
     static const auto ipChars = CharacterSet("IP Address",".:") + CharacterSet::HEXDIG;
@@ -76,6 +77,7 @@ ProxyProtocol::One::ExtractIp(Parser::Tokenizer &tok, Ip::Address &addr)
     if (!addr.GetHostByName(ip.c_str()))
         throw TexcHere("PROXY/1.0 error: invalid IP address");
 
+    return ip.find(':') != SBuf::npos;
 }
 
 void
@@ -108,10 +110,15 @@ ProxyProtocol::One::ParseAddresses(Parser::Tokenizer &tok, Header::Pointer &head
         throw TexcHere("PROXY/1.0 error: missing SP after the IP address family");
 
     // parse: src-IP SP dst-IP SP src-port SP dst-port
-    ExtractIp(tok, header->sourceAddress);
-    ExtractIp(tok, header->destinationAddress);
+    const auto sourceIsV6 = ExtractIp(tok, header->sourceAddress);
+    const auto destinationIsV6 = ExtractIp(tok, header->destinationAddress);
 
-    if (header->addressFamily() != parsedAddressFamily)
+    // Compare the declared family with the address notation rather than with
+    // Ip::Address::isIPv4(): the latter is also true for the IPv4-mapped IPv6
+    // addresses (::ffff:a.b.c.d) that dual-stack senders report under TCP6.
+    static const SBuf declaredV6("6");
+    const auto expectV6 = (parsedAddressFamily == declaredV6);
+    if (sourceIsV6 != expectV6 || destinationIsV6 != expectV6)
         throw TexcHere("PROXY/1.0 error: declared and/or actual IP address families mismatch");
 
     ExtractPort(tok, header->sourceAddress, true);
